@@ -1,7 +1,7 @@
 (* Props/C07.v — property C07: flip-flop updates are atomic at the clock edge.  Statements only. *)
 From Coq Require Import List Bool Arith Lia Permutation.
 Import ListNotations.
-From PV Require Import Sched.Block Sched.Confluence.
+From PV Require Import Sched.Block Sched.Confluence Sched.FFEdge.
 From PV Require Import Base.Prelude Bits.BitsSpec Gen.BitsGen Bits.BitsProofs.
 
 Section C07.
@@ -21,6 +21,26 @@ Proof. exact (ff_perm_indep B ffs Hframe Hdep Hsw Hff s t). Qed.
 Theorem C07_every_block_sees_preedge_state s : NoDup s -> incl s ffs ->
   forall e i v, In i s -> wr (B i) v = true -> run_list B s e v = run (B i) e v.
 Proof. exact (ff_observes_preedge B ffs Hframe Hdep Hsw Hff s). Qed.
+
+(* "a register not assigned in a cycle holds its value" *)
+Theorem C07_unassigned_holds s : incl s ffs ->
+  forall e v, (forall i, In i s -> wr (B i) v = false) -> run_list B s e v = e v.
+Proof. exact (ff_hold B ffs Hframe s). Qed.
+
+(* the edge is a function of the pre-edge state alone: each variable is what its one writer computes from the
+   pre-edge state, or its pre-edge value when nothing writes it *)
+Theorem C07_edge_is_function_of_preedge_state s : NoDup s -> incl s ffs ->
+  forall e v,
+    (exists i, In i s /\ wr (B i) v = true /\ run_list B s e v = run (B i) e v) \/
+    ((forall i, In i s -> wr (B i) v = false) /\ run_list B s e v = e v).
+Proof. exact (ff_edge_function B ffs Hframe Hdep Hsw Hff s). Qed.
+
+(* state_{t+1} == F(state_t, in_t): pre-edge states agreeing on what the blocks read and write give, in any two
+   orders, post-edge states agreeing on everything written *)
+Theorem C07_edge_determined_by_preedge_state s t e1 e2 : NoDup s -> Permutation s t -> incl s ffs ->
+  (forall i v, In i s -> rd (B i) v = true \/ wr (B i) v = true -> e1 v = e2 v) ->
+  forall i v, In i s -> wr (B i) v = true -> run_list B s e1 v = run_list B t e2 v.
+Proof. exact (ff_edge_determined B ffs Hframe Hdep Hsw Hff s t e1 e2). Qed.
 End C07.
 
 Open Scope Z_scope.
@@ -43,3 +63,5 @@ Proof. vm_compute. split; reflexivity. Qed.
 
 Print Assumptions C07_any_ff_order. Print Assumptions C07_every_block_sees_preedge_state.
 Print Assumptions C07_ilshift_invisible. Print Assumptions C07_last_wins. Print Assumptions C07_flip. Print Assumptions C07_hold.
+Print Assumptions C07_unassigned_holds. Print Assumptions C07_edge_is_function_of_preedge_state.
+Print Assumptions C07_edge_determined_by_preedge_state.
